@@ -352,6 +352,49 @@ pub fn run(tier: &str) -> i32 {
         merge(&mut acc, a);
     }
 
+    // (B2) an imported file is checked and folded in the scope of the program that imports it, and is
+    //      an input: the same path imported by different programs, and by the same program after the
+    //      file changed, gives each time what a first import gives (no memory of earlier parses)
+    {
+        let dir = std::env::temp_dir().join(format!("sslverif-c05-{}", std::process::id()));
+        let _ = std::fs::create_dir_all(&dir);
+        let changing = dir.join("changing.ssl");
+        let changing_s = changing.display().to_string();
+        let outer = "/verif/harness/corpus/uses_outer.ssl";
+        let steps: Vec<(Option<&str>, String, &str)> = vec![
+            (None, format!("x := 10; m := import \"{outer}\"; (m.y, m.z(1))"), "value=(11, 11)"),
+            (None, format!("x := 1; m := import \"{outer}\"; (m.y, m.z(1))"), "value=(2, 2)"),
+            (None, format!("m := import \"{outer}\"; m.y"), "rejected:VariableDoesntExist"),
+            (None, format!("x := \"s\"; m := import \"{outer}\"; m.y"), "rejected:"),
+            (None, format!("x := 10; m := import \"{outer}\"; (m.y, m.z(1))"), "value=(11, 11)"),
+            (Some("y := 1;"), format!("m := import \"{changing_s}\"; m.y"), "value=1"),
+            (Some("y := \"two\";"), format!("m := import \"{changing_s}\"; m.y"), "value=\"two\""),
+            (Some("y := 1 +;"), format!("m := import \"{changing_s}\"; m.y"), "rejected:"),
+            (Some("y := 3;"), format!("m := import \"{changing_s}\"; m.y"), "value=3"),
+        ];
+        let got: Vec<String> = core::on_big_stack(|| {
+            steps
+                .iter()
+                .map(|(content, text, _)| {
+                    if let Some(c) = content {
+                        std::fs::write(&changing, c).expect("write scratch file");
+                    }
+                    program_outcome(text)
+                })
+                .collect()
+        });
+        let _ = std::fs::remove_dir_all(&dir);
+        for (k, ((content, text, want), got)) in steps.iter().zip(&got).enumerate() {
+            acc.runs += 1;
+            if !got.contains(want) {
+                acc.violations.push(Violation {
+                    sig: format!("C05|import-depends-on-earlier-parses|step#{k}"),
+                    detail: json!({"kind": "program", "stdlib": true, "text": text, "file_content_written_before": content, "earlier_steps": steps[..k].iter().map(|s| s.1.clone()).collect::<Vec<_>>(), "expected_to_contain": want, "observed": got}),
+                });
+            }
+        }
+    }
+
     // (C) tie-back to the real RandomState: the same programs in a build WITHOUT the hooks,
     //     repeated in one process and across processes, must give the canonical-order outcome
     let (native_runs, native_viol) = native_tie_back(if thorough { 40 } else { 8 }, if thorough { 4 } else { 2 });
